@@ -323,6 +323,8 @@ class TimingTag(Tag):
         locked = conv_bool(tokenizer.expect(Token.STRING, skip_newline=False))
         return cls(name, value, locked)
 
+
+@attrs.define
 class AbsoluteTag(Tag):
     """Absolute tags have an increased range and precision."""
     _FMT: ClassVar[struct.Struct] = struct.Struct('<hH')
